@@ -127,6 +127,8 @@ class IdCheck:
                 if isinstance(x, TaskV) and x.role == 'elem':
                     return x.of.but(note='singleton')
             return unk(src(e)[:40])
+        if isinstance(e, ast.Dict) and not e.keys or match("dict()", e):
+            return DictV('?', Coll('empty'))
         if isinstance(e, ast.BinOp) and isinstance(e.op, ast.Add):
             a, b = self.ev(e.left, env, func), self.ev(e.right, env, func)
             return self._concat(a, b)
@@ -388,101 +390,98 @@ class IdCheck:
         x = self.ev(st.iter, env, func)
         if not isinstance(x, Coll) or not x.known or x.view != 'task':
             return False
-        el = TaskV('elem', x)
         contrib: Dict[str, object] = {}
-
-        def body(stmts, env2, filters) -> bool:
-            for i, s in enumerate(stmts):
-                if isinstance(s, ast.If) and not s.orelse and len(s.body) == 1 and isinstance(s.body[0], ast.Continue):
-                    fs = set(filters)
-                    for a, p in facts.split_conj(s.test, False):
-                        fs.add(self._filter(a if p else ast.UnaryOp(op=ast.Not(), operand=a), env2, func, el))
-                    return body(stmts[i + 1:], env2, fs)
-                if isinstance(s, ast.If) and not s.orelse:
-                    fs = set(filters)
-                    for a, p in facts.split_conj(s.test, True):
-                        fs.add(self._filter(a if p else ast.UnaryOp(op=ast.Not(), operand=a), env2, func, el))
-                    if not body(s.body, env2, fs):
-                        return False
-                    continue
-                if isinstance(s, (ast.Assign, ast.AnnAssign)) and not isinstance(s, ast.AugAssign):
-                    tg = s.targets if isinstance(s, ast.Assign) else [s.target]
-                    if len(tg) == 1 and isinstance(tg[0], ast.Name) and s.value is not None:
-                        m = match(f"{tg[0].id} + $e", s.value)
-                        if m is not None:
-                            if not add(tg[0].id, m['e'], env2, filters, 'list'):
-                                return False
-                            continue
-                        env2[tg[0].id] = self.ev(s.value, env2, func)
-                        continue
-                    if len(tg) == 1 and isinstance(tg[0], ast.Subscript) and isinstance(tg[0].value, ast.Name):
-                        k, v = self.ev(tg[0].slice, env2, func), self.ev(s.value, env2, func)
-                        if v is el and isinstance(k, KeyV) and k.task is el:
-                            contrib[tg[0].value.id] = DictV(k.view, x.but(filters=frozenset(filters)))
-                            continue
-                    return False
-                if isinstance(s, ast.AugAssign) and isinstance(s.target, ast.Name) and isinstance(s.op, ast.Add):
-                    if not add(s.target.id, s.value, env2, filters, 'list'):
-                        return False
-                    continue
-                if isinstance(s, ast.Expr) and isinstance(s.value, ast.Call) and isinstance(s.value.func, ast.Attribute) and \
-                        isinstance(s.value.func.value, ast.Name) and len(s.value.args) == 1:
-                    c = s.value
-                    n = c.func.value.id
-                    if c.func.attr in ('extend', 'update'):
-                        if not add(n, c.args[0], env2, filters, 'list' if c.func.attr == 'extend' else 'set'):
-                            return False
-                        continue
-                    if c.func.attr in ('append', 'add'):
-                        v = self.ev(c.args[0], env2, func)
-                        k = 'list' if c.func.attr == 'append' else 'set'
-                        if v is el:
-                            contrib[n] = x.but(filters=frozenset(filters), kind=k)
-                            continue
-                        if isinstance(v, KeyV) and v.task is el:
-                            contrib[n] = x.but(filters=frozenset(filters), kind=k, view=v.view)
-                            continue
-                    return False
-                if isinstance(s, ast.For) and isinstance(s.target, ast.Name) and not s.orelse:
-                    inner = self.ev(s.iter, env2, func)
-                    if isinstance(inner, Coll) and inner.src == 'sub_elem' and inner.base is x and not filters:
-                        flat = self._flat(x)
-                        if flat is not None and len(s.body) == 1:
-                            b = s.body[0]
-                            if isinstance(b, ast.Expr) and isinstance(b.value, ast.Call) and isinstance(b.value.func, ast.Attribute) and \
-                                    b.value.func.attr == 'append' and isinstance(b.value.func.value, ast.Name) and len(b.value.args) == 1 and \
-                                    isinstance(b.value.args[0], ast.Name) and b.value.args[0].id == s.target.id:
-                                contrib[b.value.func.value.id] = flat
-                                continue
-                    return False
-                if isinstance(s, (ast.Pass,)) or (isinstance(s, ast.Expr) and isinstance(s.value, ast.Constant)):
-                    continue
-                return False
-            return True
-
-        def add(name, expr, env2, filters, kind) -> bool:
-            v = self.ev(expr, env2, func)
-            if isinstance(v, Coll) and v.src == 'sub_elem' and v.base is x and not filters:
-                flat = self._flat(x)
-                if flat is not None:
-                    contrib[name] = flat
-                    return True
-            if isinstance(v, Coll) and v.note == 'singleton' and v.src == x.src:
-                contrib[name] = x.but(filters=frozenset(filters), kind=kind)
-                return True
-            return False
-
+        el = TaskV('elem', x)
         env2 = dict(env, **{st.target.id: el})
-        if not body(list(st.body), env2, set(x.filters)):
+        if not self._loop_body(list(st.body), env2, func, x, el, set(x.filters), contrib):
             return False
         for n, v in contrib.items():
             old = env.get(n, unk(n))
             if isinstance(v, DictV):
-                env[n] = v if isinstance(old, (Coll, DictV)) and getattr(old, 'src', 'x') in ('empty', 'x') else unk(n)
+                env[n] = v if (isinstance(old, Coll) and old.src == 'empty') or (isinstance(old, DictV) and old.coll.src == 'empty') else unk(n)
             else:
-                if isinstance(old, Coll) and old.src == 'empty':
-                    v = v.but(kind=old.kind) if old.kind == 'set' else v
+                if isinstance(old, Coll) and old.src == 'empty' and old.kind == 'set':
+                    v = v.but(kind='set')
                 env[n] = self._concat(old, v)
+        return True
+
+    def _filters_of(self, test, pol, env2, func, el, filters):
+        fs = set(filters)
+        for a, p in facts.split_conj(test, pol):
+            fs.add(self._filter(a if p else ast.UnaryOp(op=ast.Not(), operand=a), env2, func, el))
+        return fs
+
+    def _loop_body(self, stmts, env2, func, x: Coll, el: TaskV, filters, contrib) -> bool:
+        """statements executed for every element `el` of x that passes `filters`: what do they add to which accumulator"""
+        def add_coll(name, expr, kind) -> bool:
+            v = self.ev(expr, env2, func)
+            if isinstance(v, Coll) and v.src == 'sub_elem' and v.base is x and not (filters - {('not_none',)}):
+                flat = self._flat(x)
+                if flat is not None:
+                    contrib[name] = flat
+                    return True
+            if isinstance(v, Coll) and v.note == 'singleton' and v.members() == x.members():
+                contrib[name] = x.but(filters=frozenset(filters), kind=kind, note='')
+                return True
+            return False
+        for i, s in enumerate(stmts):
+            if isinstance(s, ast.If) and not s.orelse and len(s.body) == 1 and isinstance(s.body[0], ast.Continue):
+                return self._loop_body(stmts[i + 1:], env2, func, x, el, self._filters_of(s.test, False, env2, func, el, filters), contrib)
+            if isinstance(s, ast.If) and not s.orelse:
+                if not self._loop_body(list(s.body), env2, func, x, el, self._filters_of(s.test, True, env2, func, el, filters), contrib):
+                    return False
+                continue
+            if isinstance(s, (ast.Assign, ast.AnnAssign)):
+                tg = s.targets if isinstance(s, ast.Assign) else [s.target]
+                if len(tg) == 1 and isinstance(tg[0], ast.Name) and s.value is not None:
+                    m = match(f"{tg[0].id} + $e", s.value)
+                    if m is not None:
+                        if not add_coll(tg[0].id, m['e'], 'list'):
+                            return False
+                        continue
+                    env2[tg[0].id] = self.ev(s.value, env2, func)
+                    continue
+                if len(tg) == 1 and isinstance(tg[0], ast.Subscript) and isinstance(tg[0].value, ast.Name):
+                    k, v = self.ev(tg[0].slice, env2, func), self.ev(s.value, env2, func)
+                    if v is el and isinstance(k, KeyV) and k.task is el:
+                        contrib[tg[0].value.id] = DictV(k.view, x.but(filters=frozenset(filters)))
+                        continue
+                return False
+            if isinstance(s, ast.AugAssign) and isinstance(s.target, ast.Name) and isinstance(s.op, ast.Add):
+                if not add_coll(s.target.id, s.value, 'list'):
+                    return False
+                continue
+            if isinstance(s, ast.Expr) and isinstance(s.value, ast.Call) and isinstance(s.value.func, ast.Attribute) and \
+                    isinstance(s.value.func.value, ast.Name) and len(s.value.args) == 1:
+                c = s.value
+                n = c.func.value.id
+                if c.func.attr in ('extend', 'update'):
+                    if not add_coll(n, c.args[0], 'list' if c.func.attr == 'extend' else 'set'):
+                        return False
+                    continue
+                if c.func.attr in ('append', 'add'):
+                    v = self.ev(c.args[0], env2, func)
+                    k = 'list' if c.func.attr == 'append' else 'set'
+                    if v is el:
+                        contrib[n] = x.but(filters=frozenset(filters), kind=k)
+                        continue
+                    if isinstance(v, KeyV) and v.task is el:
+                        contrib[n] = x.but(filters=frozenset(filters), kind=k, view=v.view)
+                        continue
+                return False
+            if isinstance(s, ast.For) and isinstance(s.target, ast.Name) and not s.orelse:
+                inner = self.ev(s.iter, env2, func)
+                if isinstance(inner, Coll) and inner.src == 'sub_elem' and inner.base is x and not (filters - {('not_none',)}):
+                    flat = self._flat(x)
+                    if flat is not None:
+                        el2 = TaskV('elem', flat)
+                        env3 = dict(env2, **{s.target.id: el2})
+                        if self._loop_body(list(s.body), env3, func, flat, el2, set(), contrib):
+                            continue
+                return False
+            if isinstance(s, ast.Pass) or (isinstance(s, ast.Expr) and isinstance(s.value, ast.Constant)):
+                continue
+            return False
         return True
 
     # ---------------------------------------------------------------------------------------------- formulas
@@ -502,8 +501,16 @@ class IdCheck:
         m = match("len($x)", e)
         if m is None:
             return None
-        x = self.ev(m['x'], env, func)
+        x = self._as_coll(self.ev(m['x'], env, func))
         return x if isinstance(x, MeetV) or isinstance(x, Coll) and x.known else None
+
+    @staticmethod
+    def _as_coll(v):
+        """a dict of tasks counts / is empty like the list of its values"""
+        if isinstance(v, DictV) and v.coll.known:
+            dd = 'identity' if v.keyview == 'objid' else ('taskid' if v.keyview == 'taskid' else v.keyview)
+            return v.coll.but(dedup=dd, kind='list')
+        return v
 
     def _opaque(self, e):
         return T.F_atom('opaque:' + src(e)[:70])
@@ -578,7 +585,7 @@ class IdCheck:
                     return self.formula(list(tg.body), env2, tg)
                 finally:
                     self.depth -= 1
-        v = self.ev(e, env, func)
+        v = self._as_coll(self.ev(e, env, func))
         if isinstance(v, MeetV) or isinstance(v, Coll) and v.known:
             f = self._emptiness(v)                     # truthiness of a collection
             if f is not None:
@@ -771,3 +778,259 @@ def _rename(f, ren):
     if k in ('and', 'or'):
         return (k, [_rename(x, ren) for x in f[1]])
     return f
+
+
+# ======================================================================================================================
+# recursive depth-first lookup
+
+def _dfs_shape(prog, g, k, n):
+    """g(.., k, n): `[if n.id == k: return n]  for ch in n.children: [if ch.id == k: return ch]  r = g(k, ch); if r is not None: return r
+    return None`  ->  dict(includes_start, compares_child, inexact) or None when g is not of that form"""
+    from sa.flow import Expander
+    out = {'includes_start': False, 'compares_child': False, 'inexact': None, 'recurses': False}
+    loops = [x for x in walk_no_nested(g.node) if isinstance(x, (ast.For, ast.While))]
+    if len(loops) != 1 or not isinstance(loops[0], ast.For) or not isinstance(loops[0].target, ast.Name) or loops[0].orelse:
+        return None
+    lp = loops[0]
+    ch = lp.target.id
+    if not (match(f"{n}.children", lp.iter) or match(f"{n}._Task__children", lp.iter)):
+        return None
+    in_loop = {id(x) for x in ast.walk(lp)}
+    kpos = [p for p in g.params if p != g.self_name].index(k)
+
+    def rec_call(e):
+        if not isinstance(e, ast.Call) or len(e.args) != 2 or e.keywords:
+            return False
+        fn = e.func
+        nm = unmangle(fn.attr) if isinstance(fn, ast.Attribute) else (fn.id if isinstance(fn, ast.Name) else None)
+        if nm != g.name:
+            return False
+        a_k, a_n = e.args[kpos], e.args[1 - kpos]
+        return isinstance(a_k, ast.Name) and a_k.id == k and isinstance(a_n, ast.Name) and a_n.id == ch
+    ex = Expander(prog, g, None, inline=False)
+    for r in [x for x in walk_no_nested(g.node) if isinstance(x, ast.Return)]:
+        v = r.value
+        if v is None or (isinstance(v, ast.Constant) and v.value is None):
+            continue
+        conds = facts.node_conditions(prog, g, r, None, expand=True)
+        own = [(t, q) for t, q in conds]
+        vx = ex.expand(v)
+        if isinstance(v, ast.Name) and v.id in (n, ch) and ((id(r) in in_loop) == (v.id == ch)):
+            who = v.id
+            eq = [(t, q) for t, q in own if facts.cond_is(t, q, f"{who}.id == {k}", True) is not None or facts.cond_is(t, q, f"{k} == {who}.id", True) is not None]
+            if eq:
+                out['includes_start' if who == n else 'compares_child'] = True
+                continue
+            loose = [(t, q) for t, q in own if who in {x.id for x in ast.walk(t) if isinstance(x, ast.Name)}]
+            if loose:
+                out['inexact'] = loose[0][0]
+                out['includes_start' if who == n else 'compares_child'] = True
+                continue
+            return None
+        if id(r) in in_loop and rec_call(vx):
+            if any(facts.cond_is(t, q, "$x is None", False) is not None and rec_call(facts.norm_cond(t, q)[0].left) for t, q in own):
+                out['recurses'] = True
+                continue
+            return None
+        return None
+    if not out['recurses']:
+        return None
+    return out
+
+
+def dfs_lookup(ctx, o, f, p) -> bool:
+    """WBS.__getitem__ through a recursive depth-first search helper; True when the form was recognised (verdicts recorded)"""
+    from sa.flow import Expander
+    from sa.effects import Effects
+    prog = ctx.prog
+    ex = Expander(prog, f, ctx.typer, inline=False)
+    cfg = cfg_of(f)
+    for c in [x for x in walk_no_nested(f.node) if isinstance(x, ast.Call)]:
+        g = ex._single_target(c)
+        if g is None or g is f or g.cls != f.cls or len(c.args) != 2 or c.keywords:
+            continue
+        gp = [x for x in g.params if x != g.self_name]
+        idx = [i for i, a in enumerate(c.args) if isinstance(a, ast.Name) and a.id == p]
+        if len(gp) != 2 or len(idx) != 1:
+            continue
+        k, n = gp[idx[0]], gp[1 - idx[0]]
+        shape = _dfs_shape(prog, g, k, n)
+        if shape is None:
+            continue
+        if shape['inexact'] is not None:
+            o.refute(g, shape['inexact'], shape['inexact'], f"lookup matches `{src(shape['inexact'])[:60]}` instead of `t.id == {k}`: not exact")
+            return True
+        start = ex.expand(c.args[1 - idx[0]])
+        fors = cfg.enclosing_fors(cfg.node_containing(c))
+        if match("self._WBS__root", start):
+            if shape['includes_start']:
+                o.refute(f, c, c, f"the search starts at the hidden WBS root task and {g.name} compares the start task itself: WBS[<id of the root "
+                                  f"task>] returns a task that is not a member instead of raising RuntimeError")
+                return True
+            o.site(f, c, f"depth-first search over all members ({g.name} from the root task, which is not compared itself)")
+        elif fors and isinstance(fors[-1].target, ast.Name) and isinstance(c.args[1 - idx[0]], ast.Name) and \
+                c.args[1 - idx[0]].id == fors[-1].target.id and (
+                match("self._WBS__root.children", fors[-1].iter) or match("self.roots", fors[-1].iter) or
+                match("self._WBS__root._Task__children", fors[-1].iter)):
+            if not shape['includes_start']:
+                o.refute(f, c, c, f"{g.name} never compares the task it starts from: the top-level tasks of the WBS are not found")
+                return True
+            o.site(f, c, f"depth-first search over all members ({g.name} from every top-level task)")
+        else:
+            o.undecided(f, c, c, f"depth-first search {g.name} started from `{src(start)[:40]}`: cannot tell which tasks are searched")
+            return True
+        ok = True
+        for rt in [x for x in walk_no_nested(f.node) if isinstance(x, ast.Return) and x.value is not None]:
+            v = ex.expand(rt.value)
+            if not (isinstance(v, ast.Call) and ex._single_target(v) is g):
+                o.refute(f, rt, rt, f"WBS[id] can return `{src(rt.value)}` which is not the result of the search over the current members")
+                ok = False
+                continue
+            conds = facts.node_conditions(prog, f, rt, ctx.typer, expand=True)
+            if not any(facts.cond_is(t, q, "$x is None", want=False) is not None and same(facts.norm_cond(t, q)[0].left, v) for t, q in conds):
+                o.refute(f, rt, rt, "lookup returns None for a missing id instead of raising")
+                ok = False
+        raises = [x for x in walk_no_nested(f.node) if isinstance(x, ast.Raise)]
+        if ok and raises and all(facts.exc_name(x) == 'RuntimeError' for x in raises):
+            o.site(f, raises[0], "missing id (None from the search) -> RuntimeError")
+        elif ok:
+            o.refute(f, f.node, 'missing id', "a missing id does not end in RuntimeError")
+        eff = Effects(prog, ctx.typer, ctx.cg)
+        for w in eff.direct_writes(f) + eff.direct_writes(g):
+            if w.root == 'self':
+                o.refute(f, w.node, w.node, f"lookup changes WBS state ({w.field}): later lookups depend on earlier ones")
+        return True
+    return False
+
+
+# ======================================================================================================================
+# memoised flat list of descendants
+
+_LIST_MUT = ('append', 'remove', 'clear', 'insert', 'extend', 'pop', 'sort', 'reverse')
+
+
+def flat_list_cache(ctx, o) -> Optional[bool]:
+    """Task.all_children remembering its result in a field of the task.  None: no cache (nothing recorded).  Otherwise the
+    invalidation is examined: every change of a child list must be followed, on every path, by a reset of the cache of the list
+    owner AND of all its raw ancestors (the WBS root task included, WBS.tasks is its flat list).  A change that is not, is refuted
+    by name; when all are, the obligation stays undecided (completeness of the invalidation is not provable here)."""
+    from sa.flow import Expander
+    prog = ctx.prog
+    h = prog.func('task.Task.__get_all_children')
+    s = h.self_name
+    fields = set()
+    readers = [h] + ([prog.funcs['task.Task.all_children']] if 'task.Task.all_children' in prog.funcs else [])
+    for rd in readers:
+        for x in walk_no_nested(rd.node):
+            if isinstance(x, ast.Attribute) and isinstance(x.value, ast.Name) and x.value.id == rd.self_name and x.attr != '_Task__children':
+                m = prog.find_method('Task', unmangle(x.attr))
+                if m is None and prog.find_getter('Task', unmangle(x.attr)) is None:
+                    fields.add(x.attr)
+    if not fields:
+        return None
+    F = sorted(fields)[0]
+    task_funcs = [g for g in prog.all_funcs() if g.module.name == 'task' and g.cls == 'Task' and not isinstance(g.node, ast.Lambda)]
+    # ---- invalidators
+    chain, own_only, public_chain = set(), set(), set()
+    for g in task_funcs:
+        if g in readers or g.name == '__init__':
+            continue
+        resets = [(st, tgt) for st, tgt, val in facts.attr_stores(g, F) if isinstance(val, ast.Constant) and val.value is None]
+        if not resets:
+            continue
+        climbs = None
+        for st, tgt in resets:
+            if not isinstance(tgt.value, ast.Name):
+                continue
+            v = tgt.value.id
+            for lp in [x for x in walk_no_nested(g.node) if isinstance(x, ast.While)]:
+                if not any(x is st for x in ast.walk(lp)):
+                    continue
+                for a in [x for x in ast.walk(lp) if isinstance(x, ast.Assign)]:
+                    if len(a.targets) == 1 and isinstance(a.targets[0], ast.Name) and a.targets[0].id == v:
+                        if match(f"{v}._Task__parent", a.value):
+                            climbs = 'raw'
+                        elif match(f"{v}.parent", a.value) and climbs is None:
+                            climbs = 'public'
+        rec = any(isinstance(c.func, ast.Attribute) and match(f"{g.self_name}._Task__parent", c.func.value) for c in facts.calls_named(g, g.name))
+        if climbs == 'raw' or rec:
+            chain.add(g.name)
+        elif climbs == 'public':
+            public_chain.add(g.name)
+        else:
+            own_only.add(g.name)
+    # ---- child-list changes
+    verdict_bad = False
+    n_sites = 0
+    for g in task_funcs:
+        if g.name == '__init__' or g in readers:
+            continue
+        cfg = cfg_of(g)
+        ex = Expander(prog, g, ctx.typer, inline=False)
+        sites = []
+        for x in walk_no_nested(g.node):
+            if isinstance(x, ast.Call) and isinstance(x.func, ast.Attribute) and x.func.attr in _LIST_MUT:
+                r = ex.expand(x.func.value)
+                if isinstance(r, ast.Attribute) and r.attr == '_Task__children':
+                    sites.append((x, r.value))
+            elif isinstance(x, (ast.Assign, ast.AugAssign, ast.Delete)):
+                tg = x.targets if isinstance(x, (ast.Assign, ast.Delete)) else [x.target]
+                for t in tg:
+                    if isinstance(t, ast.Subscript):
+                        t = t.value
+                    if isinstance(t, ast.Attribute) and t.attr == '_Task__children':
+                        sites.append((x, t.value))
+        for node, recv in sites:
+            n_sites += 1
+            sn = cfg.node_containing(node) or cfg.node_of(node)
+            if sn is None:
+                continue
+            full, part, pub = set(), set(), set()
+            for cn in cfg.nodes:
+                st = cn.ast
+                if st is None or cn.kind not in ('stmt',):
+                    continue
+                for c in [y for y in ast.walk(st) if isinstance(y, ast.Call) and isinstance(y.func, ast.Attribute)]:
+                    nm = unmangle(c.func.attr)
+                    if same(c.func.value, recv) or same(ex.expand(c.func.value), ex.expand(recv)):
+                        if nm in chain:
+                            full.add(cn.id)
+                        elif nm in own_only or nm in public_chain:
+                            part.add(cn.id)
+                            if nm in public_chain:
+                                pub.add(cn.id)
+                if isinstance(st, ast.Assign) and any(isinstance(t, ast.Attribute) and t.attr == F and same(t.value, recv) for t in st.targets) \
+                        and isinstance(st.value, ast.Constant) and st.value.value is None:
+                    part.add(cn.id)
+
+            def leaks(stop):
+                seen, todo = set(), list(sn.succ)
+                while todo:
+                    q = todo.pop()
+                    if q.id in seen or q.id in stop:
+                        continue
+                    seen.add(q.id)
+                    if q is cfg.exit:
+                        return True
+                    todo.extend(q.succ)
+                return False
+            if g.name in chain and same(recv, ast.Name(id=g.self_name, ctx=ast.Load())):
+                continue
+            if not leaks(full):
+                continue
+            verdict_bad = True
+            if not leaks(full | part) and pub and not leaks(full | pub):
+                o.refute(g, node, node, f"all_children is memoised in Task.{unmangle(F)}; after `{src(node)[:50]}` the reset climbs through "
+                                        f"Task.parent, which hides the WBS root task: WBS.tasks and wbs[id] (the root task's flat list) stay stale")
+            elif not leaks(full | part):
+                o.refute(g, node, node, f"all_children is memoised in Task.{unmangle(F)}; after `{src(node)[:50]}` only the cache of the list owner "
+                                        f"is reset: its ancestors and the WBS root task (WBS.tasks, wbs[id]) keep a stale flat list")
+            else:
+                o.refute(g, node, node, f"all_children is memoised in Task.{unmangle(F)}; `{src(node)[:50]}` changes a child list and a path to the "
+                                        f"end of {g.name} resets no cache of `{src(recv)}` and its ancestors: WBS.tasks / wbs[id] / all_children "
+                                        f"keep listing the old members")
+    if not verdict_bad:
+        o.undecided(h, h.node, 'all_children cache', f"all_children is memoised in Task.{unmangle(F)}; every child-list change the rule found "
+                                                     f"({n_sites}) is followed by a reset of the whole parent chain, but that the set of changes is "
+                                                     f"complete cannot be established here")
+    return True
